@@ -103,8 +103,8 @@ def order_family(perm, default_ns=False, two_files=False):
         node_el = GlobalElement(N("node"), type=own(node), file=idx)
         derived = ComplexType(N("derived"), Content(Group("sequence", 1, 1, [LocalElement(N("own"), TypeRef("int"))]),
                                                     [Attr(N("flag"), TypeRef("boolean"), False)]), base=own(node), file=idx)
-        leaf = ComplexType(N("leaf"), Content(Group("sequence", 1, 1, [LocalElement(N("leafy"), TypeRef("string"), 0, 1)]), []),
-                           base=own(derived), file=idx)
+        # second step of the chain: adds an attribute only, with no sequence inside the extension
+        leaf = ComplexType(N("leaf"), Content(None, [Attr(N("leafy"), TypeRef("string"), False)]), base=own(derived), file=idx)
         user = ComplexType(N("user"), Content(Group("sequence", 1, 1, [ElementRef(own(node_el)), LocalElement(N("n"), own(node), 0, 3),
                                                                        LocalElement(N("d"), own(derived), 0, 1),
                                                                        LocalElement(N("l"), own(leaf), 0, 1)]), []), file=idx)
